@@ -157,6 +157,29 @@ def lifecycle_leg(ctx, fl):
     ctx.extra["rule_lifecycle_model_divergence"] = div
 
 
+def empty_engine_leg(ctx, fl):
+    """the same texts against an engine that has no component yet (and an FLL document whose rule block comes before its variables):
+    every rule names a variable the engine does not have - unknown name - so none may be accepted; if one is, it must be usable"""
+    texts = LIFE_TEXTS + ["if a is lo and b is hi then y is lo", "if a is then y is lo", "if a is lo then y is", "if ( a is lo then y is lo", "if a is lo then y is lo extra"]
+    for text in texts:
+        for how in ("Rule.create", "FllImporter"):
+            ctx.count()
+            case = {"text": text, "engine": "no components yet", "through": how}
+            if how == "Rule.create":
+                kind, val = outcome(lambda: fl.Rule.create(text, fl.Engine("empty")))
+                rule = val if kind == "ok" else None
+            else:
+                kind, val = outcome(lambda: fl.FllImporter().from_string(f"Engine: early\nRuleBlock: rb\n  enabled: true\n  conjunction: Minimum\n  disjunction: Maximum\n  implication: Minimum\n  activation: General\n  rule: {text}\n" + FLL.split("\n", 1)[1]))
+                rule = val.rule_blocks[0].rules[0] if kind == "ok" and val.rule_blocks and val.rule_blocks[0].rules else None
+            if kind == "internal":
+                ctx.violation(f"{how}/internal-{type(val).__name__}/empty-engine", case, "success or a syntax, value or lookup error", f"{type(val).__name__}: {val}")
+            elif kind == "ok" and rule is not None:
+                k2, v2 = outcome(lambda: (str(rule), rule.activate_with(fl.Minimum(), fl.Maximum())))
+                if not rule.is_loaded() or k2 != "ok":
+                    ctx.violation(f"{how}/accepted/unknown-name/empty-engine", case, "rejected (the engine has no variable of that name)", "accepted" + ("" if rule.is_loaded() else ", not loaded") + (f", {type(v2).__name__} on evaluation" if k2 != "ok" else ""),
+                                  note=f"'{text}' names variables the engine does not have (yet) and was accepted")
+
+
 def degenerate_leg(ctx, fl):
     """rule texts over an engine with legal but degenerate components - a variable without terms, reachable only through `any` -
     either are rejected cleanly or load into a rule that can be exported and evaluated, alone and inside Engine.process"""
@@ -191,6 +214,7 @@ def run(ctx: core.Ctx):
     fl = core.import_fuzzylite()
     lifecycle_leg(ctx, fl)
     degenerate_leg(ctx, fl)
+    empty_engine_leg(ctx, fl)
     rng = random.Random(ctx.seed)
     la, lc = (4, 4) if ctx.quick else (5, 5)
     head = "SPECIFICATION Spec\n" + CONSTS + f"  LenA = {la}\n  LenC = {lc}\n  Emit = TRUE\n"
